@@ -83,6 +83,9 @@ func modules(t *sg.TypeSpec, hops int) []*sg.Mod {
 	if t.Name != "empty" {
 		// the same type on a leaf-list: an entry is validated, and its rejection located, like the value of the leaf
 		m1.Nodes[0].Kids = append(m1.Nodes[0].Kids, &sg.Node{Kind: "leaf-list", Name: "vl", Type: m1.Nodes[0].Kids[0].Type})
+		// ... and as the key of a list: the token after the list name is a value of the key's type wherever the path goes on to
+		m1.Nodes[0].Kids = append(m1.Nodes[0].Kids, &sg.Node{Kind: "list", Name: "kl", Key: "k", Kids: []*sg.Node{
+			{Kind: "leaf", Name: "k", Type: m1.Nodes[0].Kids[0].Type}, {Kind: "leaf", Name: "other", Type: &sg.TypeSpec{Name: "string"}}}})
 	}
 	return []*sg.Mod{m0, m1}
 }
@@ -427,11 +430,16 @@ func checkCase(c Case) fw.Outcome {
 		}
 		nearBound++
 		// the same value reached by walking the schema: the value of the leaf, an entry of the leaf-list
-		for _, name := range []string{"v", "vl"} {
+		for _, name := range []string{"v", "vl", "kl", "kl+"} {
 			if c.Type.Name == "empty" {
 				break
 			}
-			werr := res.MS.Validate(vctx{}, nil, []string{"m1-top", name, v})
+			toks := []string{"m1-top", name, v}
+			if name == "kl+" {
+				name = "kl"
+				toks = []string{"m1-top", name, v, "other", "x"}
+			}
+			werr := res.MS.Validate(vctx{}, nil, toks)
 			if (werr == nil) != want {
 				out.Violation = fmt.Sprintf("value %q of %s reached through the schema: member of the value space = %v, Validate says %v\n%s", v, name, want, werr, src)
 				return out
